@@ -41,14 +41,14 @@ def pick_behaviour(chk):
     return best
 
 
-def build_dataset(beh, step, base, wd, tag):
+def build_dataset(beh, step, base, wd, tag, half=0.5):
     sf = float(Fraction(step[0], step[1]))
     dt = 1800
     pres = P.Presentation(dt=dt, s_real=0.5, j_real=sf / 0.5, S=1, J=1, gap=1, gap_rain=0, zone="UTC")
     rec = []
     gaps = [e["n"] for e in beh["ev"] if e["type"] == "gap"]
     for k, st in enumerate(beh["rec"]):
-        d = {"rain": st["rain"], "inc": st["inc"], "first": (beh["first"][k] + 0.5 + base) * sf}
+        d = {"rain": st["rain"], "inc": st["inc"], "first": (beh["first"][k] + half + base) * sf}
         if k < len(gaps):
             d["gap_after"] = gaps[k]
         rec.append(d)
